@@ -289,6 +289,8 @@ func main() {
 var generators = map[string]func() string{
 	"Consts.v": genConsts,
 	"PersistGen.v": genPersist,
+	"Locks.v": genLocks,
+	"Locks.unguarded.txt": genLocksUnguarded,
 }
 
 var _ = ast.Inspect
